@@ -14,6 +14,36 @@ CLAIMED = {
     design_ref="DESIGN.md sec. 3 C20"),
 }
 
+_SCHED_NOTE = ("Trusted: z3, the symx proxies (every path replayed natively on the unpatched code), the controlled executor/queue as a model of "
+               "completion orders (task bodies pure, inputs captured at submit time). Graph shapes, kinds, requests, chunksize and picks are "
+               "solver-enumerated (bounded exhaustive); num_workers is symbolic and unbounded above. Outside: process boundary of the "
+               "multiprocessing scheduler, graphs above the node bound.")
+CLAIMED.update({
+ "C01": dict(text="Bounded symbolic execution of the real dask.local.get_async loop: result equals an independent evaluation of the graph for every bounded "
+                  "graph (<=3-4 nodes, six node kinds), request nesting, chunksize in {-1,1,2,3,4}, every num_workers >= 1 (symbolic) and every completion "
+                  "order of pending batches; no exception, no blocking with nothing pending. Witnesses re-run on sync/threaded/executor schedulers.",
+             note=_SCHED_NOTE, design_ref="DESIGN.md sec. 3 scheduler family"),
+ "C02": dict(text="Same symbolic scheduler run; monitors on the hand-over/execute log and pretask/posttask callbacks decide exactly-once execution of needed "
+                  "nodes, never of unneeded ones, dependencies finished first, and that each task receives exactly its dependencies' denoted values.",
+             note=_SCHED_NOTE, design_ref="DESIGN.md sec. 3 scheduler family"),
+ "C03": dict(level="model_checking",
+             text="Bounded model checking of the implementation's own scheduler state dict over all bounded graphs / requests / worker counts / completion "
+                  "orders: invariants on cache/released/finished at every callback point and cache == requested at return. States and transitions are "
+                  "those of the real code, not of an abstraction, so traces need no separate validation beyond the per-path native replay.",
+             note=_SCHED_NOTE, technique="bounded symbolic model checking of the real scheduler loop (symx + z3), invariants on the real state dict",
+             design_ref="DESIGN.md sec. 3 scheduler family"),
+ "C04": dict(text="Solver-driven fault enumeration on the real loop: every failing subset, three exception classes incl. a BaseException subclass, three "
+                  "exception transports, rerun_exceptions_locally both ways; asserts type/message preservation, no dependent of a failed task executed, "
+                  "no hang, finish callback once with failed=True.",
+             note=_SCHED_NOTE, technique="bounded symbolic execution with solver-enumerated fault sets (symx + z3)", design_ref="DESIGN.md sec. 3 scheduler family"),
+ "C05": dict(text="(i) callback protocol order asserted on the symbolic scheduler run for explicit and global callbacks, success and failure; (ii) all bounded "
+                  "histories of with/add_callbacks/exit/register/unregister/compute over two callback objects against the real Callback.active set.",
+             note=_SCHED_NOTE + " History operations are solver-enumerated choices (no arithmetic): bounded exhaustive.", design_ref="DESIGN.md sec. 3 scheduler family"),
+ "C52": dict(text="Real Profiler active during the symbolic scheduler run with a symbolic non-decreasing clock: one entry per finished task, none lost on failure or "
+                  "on a second call, start <= end for every admissible clock reading. Cache/ProgressBar parts are outside (cachey absent).",
+             note=_SCHED_NOTE, design_ref="DESIGN.md sec. 3 scheduler family"),
+})
+
 NOT_APPLICABLE = {}
 
 _NA_DESIGN = {
